@@ -188,7 +188,7 @@ func admissionAtom(a admission, wantInclusive bool, gotT *[]ssa.Value) core.Atom
 
 func c08(r *core.Run) {
 	p := r.P
-	r.Explain = "C08 decided structurally: (VETO) in the matcher, the edge 'some required call is missing' leads only to returns whose Confidence was set to the constant 0; (FILTER) in both storage backends every use that admits a matcher result into a returned collection / best result is dominated by the NaN-safe comparison Confidence >= T with T the scanner's threshold field or, in the JSON exact mode, a constant >= 0.99; (MONO) the threshold value has no use other than as the bound of such comparisons; (SORT) every returned []ScanResult passed through a sort by Confidence descending (or is delegated / returned with an error); (SUBSET) per backend, exact and full mode guard admission with the same entropy pre-filter and threshold shapes, differing only as the property states for JSON; (RANGE) every term appended to the score list is one of the enumerated [0,1]-bounded shapes (constant, 1-d/t under d<=t, min(r,1/r), len/len, mean of such). Not decided: numeric equality of confidences between modes, the arithmetic itself."
+	r.Explain = "C08 decided structurally: (VETO) in the matcher, the edge 'some required call is missing' leads only to returns whose Confidence was set to the constant 0; (FILTER) in both storage backends every use that admits a matcher result into a returned collection / best result is dominated by the NaN-safe comparison Confidence >= T with T the scanner's threshold field or, in the JSON exact mode, a constant >= 0.99; (MONO) the threshold value has no use other than as the bound of such comparisons; (SORT) every returned []ScanResult passed through a sort by Confidence descending (or is delegated / returned with an error); (SUBSET) per backend, exact and full mode guard admission with the same entropy pre-filter and threshold shapes, differing only as the property states for JSON; (RANGE) every term appended to the score list is one of the enumerated [0,1]-bounded shapes (constant, 1-d/t under d<=t, min(r,1/r), len/len, mean of such). Not decided: numeric equality of confidences between modes, the arithmetic itself. (VETO, sharpened) every path to a computed confidence passed the missing-call test unless the signature requires no calls; (MONO, sharpened) no branch on the size/emptiness of the already filtered alerts decides whether further candidates are evaluated."
 	r.Undecided = []string{"numeric equality of exact-mode and full-mode confidence", "that the mean of bounded terms is computed without NaN for degenerate tolerances (0/0 cannot pass the >= filter, which FILTER protects)"}
 
 	c08Veto(r)
